@@ -89,7 +89,7 @@ def relayout(pkg: docgen.Pkg, rng: random.Random, mode: str | None = None) -> do
             continue
         k = kind_of(leaf)
         if k not in styles:
-            styles[k] = rng.choice(["same", "suffix", "prefix", "subdir", "upper", "dirprefix", "dirprefix_sub"]) \
+            styles[k] = rng.choice(["same", "suffix", "prefix", "subdir", "upper", "dirprefix", "dirprefix_sub", "percent"]) \
                 if leaf != "styles.xml" else "same"
         stem = leaf[:-4]
         last = base.rsplit("/", 1)[-1]
@@ -98,7 +98,10 @@ def relayout(pkg: docgen.Pkg, rng: random.Random, mode: str | None = None) -> do
         # round-6 seed C09-path-startswith-dirname
         leaf = {"same": leaf, "suffix": stem + "_x.xml", "prefix": "p_" + leaf, "subdir": "sub/" + leaf,
                 "upper": stem.upper() + ".xml", "dirprefix": last + "mark_" + leaf,
-                "dirprefix_sub": last + "art/" + leaf}[styles[k]]
+                "dirprefix_sub": last + "art/" + leaf,
+                # a literal percent escape in the member name and in the target (the name of the member
+                # IS "x%20y.xml": nothing is to be decoded; round-7 seed C09-unquote-percent-encoded-targets)
+                "percent": stem + "%20v%C3%A9.xml"}[styles[k]]
         rename[name] = f"{base}/{leaf}"
         if mode == "samedir" and name != "word/document.xml":
             rename[name] = f"word/word/{leaf}"
